@@ -189,7 +189,7 @@ def run_one(path: str, line: int, cap_s: float, env: dict) -> dict:
     t0 = time.time()
     cmd = [CROSSHAIR, "check", "--report_all", "--per_condition_timeout", str(cap_s), f"{path}:{line}"]
     try:
-        p = subprocess.run(cmd, capture_output=True, text=True, env=env, timeout=cap_s * 4 + 120,
+        p = subprocess.run(cmd, capture_output=True, text=True, env=env, timeout=cap_s * 2.5 + 60,
                            cwd=os.path.dirname(path))
         out, err, rc = p.stdout, p.stderr, p.returncode
     except subprocess.TimeoutExpired as e:
@@ -241,8 +241,9 @@ def replay_call(tmpdir: str, call: str, env: dict) -> dict:
 class Runner:
     """runs all conditions in a background thread pool; `results()` joins"""
 
-    def __init__(self, tier: str, tmpdir: str, repo_src: str, cap_s: float, jobs: int, only=None):
+    def __init__(self, tier: str, tmpdir: str, repo_src: str, cap_s: float, jobs: int, only=None, deadline=None):
         self.tier, self.tmpdir, self.cap_s = tier, tmpdir, cap_s
+        self.deadline = deadline  # conditions not started by then are not run (reported as inconclusive)
         self.conds = [c for c in conditions(tier) if not only or any(o in c["name"] for o in only)]
         src, self.where = render(self.conds)
         self.path = os.path.join(tmpdir, "c07_conds.py")
@@ -252,17 +253,28 @@ class Runner:
         env["PYTHONPATH"] = os.pathsep.join([repo_src, VERIF, tmpdir])
         env["PYTHONDONTWRITEBYTECODE"] = "1"
         self.env = env
-        self.ex = ThreadPoolExecutor(max_workers=max(1, jobs))
+        self.ex = ThreadPoolExecutor(max_workers=64)
+        self.slots = threading.Semaphore(max(1, jobs))  # concurrency gate; more_slots() widens it
         self.futs = {}
-        self.lock = threading.Lock()
 
     def available(self) -> bool:
         return os.path.exists(CROSSHAIR)
 
+    def more_slots(self, n: int):
+        for _ in range(max(0, n)):
+            self.slots.release()
+
+    def _gated(self, line):
+        with self.slots:
+            if self.deadline is not None and time.time() > self.deadline:
+                return {"status": "unknown", "msg": "not run (time budget)", "call": None, "wall": 0.0, "rc": None}
+            return run_one(self.path, line, self.cap_s, self.env)
+
     def start(self):
-        # longest first
-        for c in self.conds:
-            self.futs[c["name"]] = self.ex.submit(run_one, self.path, self.where[c["name"]], self.cap_s, self.env)
+        # twins and copy-independence first: they are cheap and must not be starved by the time budget
+        rank = {"P.twin": 0, "P.value_copy": 1, "P.copy": 2, "P.write": 3, "P.write2": 4, "P.read": 5}
+        for c in sorted(self.conds, key=lambda c: rank.get(c["cls"], 9)):
+            self.futs[c["name"]] = self.ex.submit(self._gated, self.where[c["name"]])
 
     def results(self):
         for c in self.conds:
